@@ -171,19 +171,20 @@ type Outcome struct {
 	GenFailed  string // non-empty: goderive or the compiler rejected the subject (not this property's concern)
 	Files      map[string]string
 	HarnessOut string
+	Seed       uint64 // PRNG value the harness ran with
 }
 
 // Options for RunCase.
 type Options struct {
 	Property string
 	Harness  string
-	Checks   int    // rapid checks per entry inside the harness
-	Go126    bool   // build/run the harness with go1.26.8 (synctest)
+	Checks   int  // rapid checks per entry inside the harness
+	Go126    bool // build/run the harness with go1.26.8 (synctest)
 	Race     bool
 	Env      []string
 	EnvFn    func(dir string) []string // extra environment depending on the case directory
-	Patterns []string // goderive package patterns (default ./p)
-	Args     []string // goderive flags
+	Patterns []string                  // goderive package patterns (default ./p)
+	Args     []string                  // goderive flags
 	Timeout  time.Duration
 	RejectOK bool // do not treat a rejected subject as a violation
 	// AfterGenerate runs after goderive succeeded and before the harness is built (e.g. to derive further
@@ -256,6 +257,7 @@ func RunCase(c *pkit.Ctx, rt *rapid.T, s *Subject, o Options) *Outcome {
 	}
 	repPath := filepath.Join(dir, "harness-report.json")
 	seed := rapid.Uint64Range(1, 1<<62).Draw(rt, "harness-seed")
+	out.Seed = seed
 	var activeIDs []string
 	for id := range c.ActiveSet() {
 		activeIDs = append(activeIDs, id)
@@ -351,7 +353,7 @@ func RunCase(c *pkit.Ctx, rt *rapid.T, s *Subject, o Options) *Outcome {
 		keep["p/derived.gen.go.observed"] = string(derived)
 		c.Fail(rt, v.Signature, v.Message+"\n--- harness output (tail)\n"+tailStr(out.HarnessOut, 2500), keep,
 			map[string]any{"entry": entry, "harness": o.Harness, "harness_seed": strconv.FormatUint(seed, 10), "checks": o.Checks, "go126": o.Go126, "race": o.Race,
-			"env": o.Env, "patterns": o.Patterns, "test_run": o.TestRun})
+				"env": o.Env, "patterns": o.Patterns, "test_run": o.TestRun})
 	}
 	return out
 }
@@ -395,7 +397,11 @@ func tailStr(s string, n int) string {
 }
 
 // Replay re-runs a saved E2 case: goderive on the saved sources, harness restricted to the failing entry.
-func Replay(c *pkit.Ctx, dir string) (bool, string) {
+func Replay(c *pkit.Ctx, dir string) (bool, string) { return ReplayOpts(c, dir, nil, nil) }
+
+// ReplayOpts is Replay with extra harness environment and a second stage that runs when the harness
+// itself reports nothing.
+func ReplayOpts(c *pkit.Ctx, dir string, envFn func(dir string) []string, post func(dir string) (bool, string)) (bool, string) {
 	meta, files, err := pkit.ReadReplay(dir)
 	if err != nil {
 		return false, err.Error()
@@ -480,14 +486,26 @@ func Replay(c *pkit.Ctx, dir string) (bool, string) {
 			}
 		}
 	}
+	if envFn != nil {
+		env = append(env, envFn(cd)...)
+	}
 	hr := gorun.Run(filepath.Join(cd, "h"), 20*time.Minute, env, filepath.Join(cd, "h.test"), "-test.run", testRun, "-test.timeout", "0",
 		"-rapid.checks="+strconv.Itoa(int(checksF)), "-rapid.seed="+seedS, "-rapid.nofailfile")
+	if ho := hr.Stdout + hr.Stderr; strings.Contains(ho, "WARNING: DATA RACE") {
+		return false, "the race detector reported a data race\n" + pkit.Trunc(ho[strings.Index(ho, "WARNING: DATA RACE"):], 2000)
+	} else if _, err := os.Stat(repPath); err != nil && hr.Exit != 0 && !hr.TimedOut &&
+		(strings.Contains(ho, "\npanic: ") || strings.Contains(ho, "fatal error: ") || strings.HasPrefix(ho, "panic: ")) {
+		return false, "the harness process died: " + pkit.Trunc(ho, 2000)
+	}
 	rep, err := vrep.Read(repPath)
 	if err != nil {
 		return false, "no report: " + hr.Stdout + hr.Stderr
 	}
 	if len(rep.Violations) > 0 {
 		return false, rep.Violations[0].Message
+	}
+	if post != nil {
+		return post(cd)
 	}
 	return true, ""
 }
